@@ -43,6 +43,12 @@ def uToInt32 (u : BitVec 32) : BitVec 32 :=
 def int16ToBytes (i : BitVec 16) : List Byte := beBytes 2 i.toNat
 def bytesToInt16 (bs : List Byte) : BitVec 16 := BitVec.ofNat 16 (ofBE (bs.take 2))
 
+/-- Sort key of a timestamp tag value (`pkg/pb/v1/write.go ParseTagValue`, used by the distributed
+    stream/measure merges through `MarshalTagValue`): ordered bytes of `Seconds*1e9 + Nanos`
+    (protobuf timestamps count nanos forward for every sign of `Seconds`). -/
+def timestampSortKey (sec nanos : Int) : List Byte :=
+  int64ToBytes (BitVec.ofInt 64 (sec * 1000000000 + nanos))
+
 /-! ### ordered floats -/
 
 /-- IEEE-754 binary64 `NaN` test on the bit pattern. -/
